@@ -7,6 +7,8 @@ use dnssec::*;
 use dnssec::denial;
 use domain::base::iana::{DigestAlgorithm, SecurityAlgorithm};
 use domain::base::Record;
+use domain::base::iana::Class;
+use domain::base::name::ToName;
 use domain::crypto::common::{rsa_encode, rsa_exponent_modulus, PublicKey};
 use domain::crypto::sign::{generate, GenerateParams, KeyPair, SignRaw};
 use dnssec::realkeys::{self, RealKey};
@@ -437,6 +439,22 @@ fn build_coll(ops: &Value) -> Result<(Coll, Vec<Value>), String> {
             "from" => coll = SortedRecords::from(recs),
             "collect" => coll = recs.into_iter().collect(),
             "extend" => coll.extend(recs),
+            o @ ("remove_first" | "remove_all") => {
+                let name = name_of(&op["name"]);
+                let t = op["t"].as_u64().unwrap_or(0) as u16;
+                // an owner and Some(type), or the owner alone
+                let (class, rt) = if t == 0 { (None, None) } else { (Some(Class::IN), Some(rtype(t))) };
+                ok = if o == "remove_first" {
+                    coll.remove_first_by_name_class_rtype(&name, class, rt)
+                } else {
+                    coll.remove_all_by_name_class_rtype(&name, class, rt)
+                };
+            }
+            "update" => {
+                let [old, new] = &recs[..] else { return Err("update wants the old and the new record".into()) };
+                coll.update_data(|r| r.owner().name_eq(old.owner()) && r.rtype() == old.rtype() && r.data() == old.data(),
+                                 new.data().clone());
+            }
             o => return Err(format!("op {o}")),
         }
         steps.push(json!({"ok": ok, "after": coll.iter().map(sr_json).collect::<Vec<_>>()}));
@@ -467,6 +485,7 @@ fn sinput_case(input: &Value, reals: &[RealKey]) -> Value {
     let rk = SigningKey::new(key_owner.clone(), flags, RecKey::of_json(&input["key"]));
     let mut entries = serde_json::Map::new();
     let mut rrsets = vec![];
+    let mut made: Vec<SRrsig> = vec![];
     for e in ENTRIES {
         let all = match build_coll(&input["ops"]).and_then(|(c, _)| run_entry(e, c, &slices, &apex, &rk, inc, exp)) {
             Ok(a) => a,
@@ -481,12 +500,26 @@ fn sinput_case(input: &Value, reals: &[RealKey]) -> Value {
                 let Some(ZoneRecordData::Rrsig(sig)) = sigs.get(i).map(|r| r.data()) else {
                     return json!({"entry_error": "fewer RRSIGs than RRsets"});
                 };
+                made.push(sig.clone());
                 rrsets.push(json!({"n": jname_lower(rrset.owner()), "t": rrset.rtype().to_int(), "len": rrset.len(),
                                    "sig0": sig_fields(sig), "handed": jbytes(bufs.get(i).map(|b| &b[..]).unwrap_or(&[]))}));
             }
         }
         entries.insert(e.to_string(), Value::Array(bufs.iter().map(|b| jbytes(b)).collect()));
     }
+    // the validator's side: signed_data of each RRSIG over the caller's own
+    // records of the RRset, last arrival first
+    let mut vbufs = vec![];
+    for (i, sig) in made.iter().enumerate() {
+        let mut recs: Vec<SRecord> = slices.get(i).cloned().unwrap_or_default();
+        recs.reverse();
+        let mut b: Vec<u8> = vec![];
+        if sig.signed_data(&mut b, &mut recs[..]).is_err() {
+            return json!({"entry_error": format!("signed_data refuses RRset {i}")});
+        }
+        vbufs.push(jbytes(&b));
+    }
+    entries.insert("validator".to_string(), Value::Array(vbufs));
     // (ii) a real key: every RRSIG of every entry point verifies over its RRset in any order
     let alg = input["key"]["alg"].as_u64().unwrap_or(15) as u8;
     let publen = input["key"]["pub"].as_array().map(|a| a.len()).unwrap_or(0);
